@@ -15,8 +15,8 @@ use syn::visit::{self, Visit};
 use syn::visit_mut::{self, VisitMut};
 use syn::*;
 
-struct Binders { names: Vec<String>, seen: BTreeSet<String> }
-impl Binders { fn add(&mut self, n: String) { if n != "self" && self.seen.insert(n.clone()) { self.names.push(n); } } }
+struct Binders { names: Vec<String>, seen: BTreeSet<String>, occ: Vec<String> }
+impl Binders { fn add(&mut self, n: String) { if n != "self" { self.occ.push(n.clone()); if self.seen.insert(n.clone()) { self.names.push(n); } } } }
 impl<'ast> Visit<'ast> for Binders {
     fn visit_pat_ident(&mut self, p: &'ast PatIdent) {
         let n = p.ident.to_string();
@@ -26,12 +26,16 @@ impl<'ast> Visit<'ast> for Binders {
     }
 }
 
-pub fn binder_names(m: &ImplItemFn) -> Vec<String> {
-    let mut b = Binders { names: vec![], seen: BTreeSet::new() };
+/// every binding occurrence, in order (a name bound again — shadowing, a loop variable reassigned by `let` — occurs again)
+pub fn binder_occurrences(m: &ImplItemFn) -> Vec<String> {
+    let mut b = Binders { names: vec![], seen: BTreeSet::new(), occ: vec![] };
     b.visit_signature(&m.sig);
     b.visit_block(&m.block);
-    b.names
+    b.occ
 }
+fn distinct(occ: &[String]) -> Vec<String> { let mut s = BTreeSet::new(); occ.iter().filter(|n| s.insert((*n).clone())).cloned().collect() }
+/// the shape of a binding sequence: each occurrence replaced by the index of its name's first occurrence
+fn shape(occ: &[String]) -> Vec<usize> { let d = distinct(occ); occ.iter().map(|n| d.iter().position(|x| x == n).unwrap()).collect() }
 
 struct Idents { all: BTreeSet<String> }
 impl<'ast> Visit<'ast> for Idents {
@@ -103,9 +107,12 @@ impl Locals {
     /// rename the locals of `m` (translated under `key`) back to the pinned names when it differs from the pinned
     /// function by a renaming of locals only; returns a note for the report when it did
     pub fn normalise(&self, key: &str, m: &mut ImplItemFn) -> Option<String> {
-        let cur = binder_names(m);
-        if self.dump.is_some() { self.seen.borrow_mut().insert(key.to_string(), cur.clone()); return None; }
-        let pin = self.pinned.get(key)?;
+        let cur_occ = binder_occurrences(m);
+        if self.dump.is_some() { self.seen.borrow_mut().insert(key.to_string(), cur_occ.clone()); return None; }
+        let pin_occ = self.pinned.get(key)?;
+        // a renaming keeps the whole binding structure: the same number of binding occurrences, repeated in the same pattern
+        if pin_occ.len() != cur_occ.len() || shape(pin_occ) != shape(&cur_occ) { return None; }
+        let (pin, cur) = (&distinct(pin_occ), distinct(&cur_occ));
         if pin.len() != cur.len() || *pin == cur { return None; }
         // the same names in another order is a reordering of statements, not a renaming: leave it alone
         if pin.iter().collect::<BTreeSet<_>>() == cur.iter().collect::<BTreeSet<_>>() { return None; }
